@@ -85,10 +85,15 @@ func VerifLemma_C03C_FieldOneof() {
 		case 0:
 			return f, false, ""
 		case 1:
-			f.oneof = &vbOneof{name: vbNondetName(nl), synthetic: true}
+			// the compiler names a synthetic oneof "_<field>" or, when that is taken, "X_<field>", ...: the name is
+			// arbitrary here; the documented criterion is the descriptor's IsSynthetic
+			f.oneof = &vbOneof{name: vbNondetName(nl), synthetic: true, fields: []bufprotosource.Field{f}}
 			return f, false, ""
 		default:
-			f.oneof = &vbOneof{name: vbNondetName(nl)}
+			f.oneof = &vbOneof{name: vbNondetName(nl), fields: []bufprotosource.Field{f}}
+			if verifNondetBool() {
+				f.oneof.fields = append(f.oneof.fields, &vField{number: 2, name: "sibling"})
+			}
 			return f, true, f.oneof.name
 		}
 	}
